@@ -65,11 +65,13 @@ def main():
         assumptions=["the simulated kernel follows Linux/POSIX for fork, waitpid (children re-scanned before EINTR), pipes, SIGCHLD generation/coalescing/delivery, sigprocmask and sa_mask",
                      "POSIX lets any thread that does not block SIGCHLD receive it; half of the runs restrict this to Linux's preference for the forking thread",
                      "the child side of createProcess is a state machine (waits for OK, exec succeeds or fails, runs, ends with the planned fate); descriptor inheritance by children of other threads is not modelled",
-                     "uninitialised automatic variables read by the code take the value 0 (variant zero) or 0xFE.. (variant pattern)"],
+                     "uninitialised automatic variables read by the code take the value 0 (variant zero) or 0xFE.. (variant pattern)",
+                     "in a third of the runs pids come from a small space: the pid of a reaped child is handed out again once the command that started it is over (never inside the window between a waitpid and its caller's bookkeeping: that would need the whole pid space to wrap around within microseconds)",
+                     "system calls that change the process table (a successful waitpid, close) are preemption points after as well as before the call"],
         components={"real": ["src/System/ProcessManager.cxx (parent side)", "src/System/SignalManager.cxx", "src/System/SignalHandler.cxx", "src/System/System.cxx", "src/System/SystemError.cxx", "src/System/ProcessManager-c.c", "src/Exception/TFELException.cxx"],
                     "simulated": ["kernel: fork/waitpid/kill/pipe/read/write/close/sigaction/sigprocmask", "child processes", "pthread mutex/create/join", "scheduler"]},
         required_probes=["runs_multi_thread", "runs_single_thread", "reaped_by_wnohang", "reaped_by_blocking_wait", "ECHILD_blocking", "EINTR_waitpid", "sigchld_to_other_thread",
-                         "sigchld_coalesced", "sigchld_delivered_at_unblock", "stray_sigchld_fired", "handler_runs"],
+                         "sigchld_coalesced", "sigchld_delivered_at_unblock", "stray_sigchld_fired", "handler_runs", "pid_recycled"],
     )
     return orch.run_sim_check(spec, args)
 
